@@ -176,6 +176,9 @@ theorem frame_reads_exactly_the_packet (b : Bs) (code first len remain : Nat) (h
   by_cases hc : (b.getD 0 0 / 16 * 16 ≠ 0xF0 ∧ b.getD 0 0 / 16 * 16 ≠ 0x20)
   · rw [if_pos hc] at h; cases h
   · rw [if_neg hc] at h
+    by_cases hfl : b.getD 0 0 % 16 ≠ 0
+    · rw [if_pos hfl] at h; cases h
+    rw [if_neg hfl] at h
     have hg := Proofs.Dec.varint_good ⟨b, minPacketSz⟩ 1 minPacketSz (Nat.le_refl _)
     cases hv : Dec.varint ⟨b, minPacketSz⟩ 1 minPacketSz with
     | ok varlen p =>
@@ -188,6 +191,30 @@ theorem frame_reads_exactly_the_packet (b : Bs) (code first len remain : Nat) (h
         injection h with h1 h2 h3 h4
         subst h2 h3 h4
         unfold minPacketSz at *
+        omega
+    | fail => rw [hv] at h; cases h
+    | oob => rw [hv] at h; cases h
+
+/-- a frame is accepted only with all reserved bits of the first byte zero: the first byte is exactly the packet type -/
+theorem frame_first_byte (b : Bs) (code first len remain : Nat) (h : frame b = .more code first len remain) :
+    b.getD 0 0 = code ∧ (code = 0x20 ∨ code = 0xF0) := by
+  unfold frame at h
+  simp only at h
+  by_cases hc : (b.getD 0 0 / 16 * 16 ≠ 0xF0 ∧ b.getD 0 0 / 16 * 16 ≠ 0x20)
+  · rw [if_pos hc] at h; cases h
+  · rw [if_neg hc] at h
+    by_cases hfl : b.getD 0 0 % 16 ≠ 0
+    · rw [if_pos hfl] at h; cases h
+    rw [if_neg hfl] at h
+    cases hv : Dec.varint ⟨b, minPacketSz⟩ 1 minPacketSz with
+    | ok varlen p =>
+      rw [hv] at h
+      simp only at h
+      by_cases hm : varlen < minPacketSz - p
+      · rw [if_pos hm] at h; cases h
+      · rw [if_neg hm] at h
+        injection h with h1 h2 h3 h4
+        subst h1
         omega
     | fail => rw [hv] at h; cases h
     | oob => rw [hv] at h; cases h
@@ -208,6 +235,7 @@ theorem connack_success_code (rc : Nat) (h : Verdict.admitted .connack rc = true
 broker sends, `established` implies the framing accepted a CONNACK, the whole packet was received, the decoder succeeded
 and the reason code is 0 -/
 theorem established_only_after_success_connack (rx : Bs) (sp : Nat) (ps : Props) (h : handshake rx = .established sp ps) :
+    rx.getD 0 0 = 0x20 ∧ sp ≤ 1 ∧
     ∃ first len remain, frame (rx.take minPacketSz) = .more 0x20 first len remain ∧ minPacketSz + remain ≤ rx.length ∧
       ∃ p, Dec.decodeConnack ⟨rx.take (minPacketSz + remain), minPacketSz + remain⟩ first len = .ok (sp, 0, ps) p := by
   unfold handshake at h
@@ -229,6 +257,9 @@ theorem established_only_after_success_connack (rx : Bs) (sp : Nat) (ps : Props)
           · rename_i sp' rc ps' p hd
             split at h
             · cases h
+            rename_i hsp
+            split at h
+            · cases h
             · rename_i hadm
               split at h
               · cases h
@@ -237,7 +268,13 @@ theorem established_only_after_success_connack (rx : Bs) (sp : Nat) (ps : Props)
                 subst h1 h2
                 have hz := connack_success_code rc (by simpa using hadm) (by omega)
                 subst hz
-                exact ⟨first, len, remain, hf, by omega, p, hd⟩
+                have hb := (frame_first_byte _ _ _ _ _ hf).1
+                have hb' : rx.getD 0 0 = 0x20 := by
+                  rw [← hb]
+                  cases rx with
+                  | nil => simp [minPacketSz] at *
+                  | cons x r => simp [minPacketSz, List.getD]
+                exact ⟨hb', by omega, first, len, remain, hf, by omega, p, hd⟩
           · cases h
 
 /-- non-vacuity: three brokers, the first unresolvable, the second refusing on both endpoints, the third silent, then after
